@@ -296,16 +296,61 @@ Theorem C15_tick_one_pass_window_refuted :
   run_loop (init_state 1) C15_one_pass_witness2 = Panic site_tick_msg_sub.
 Proof. vm_compute. reflexivity. Qed.
 
-(* outside that class (no successful open with collect:one_pass_streams; [tick_inv]: nothing drained,
-   filtered_msgs point into all_msgs) the loop never panics, for every history, every arrival schedule,
-   every filter predicate: one reply per command, and the state is again the function of the replies *)
+(* ---- what the opened file makes the background threads publish: the lifecycle table read by every pass
+   (`for lc in lc_map.iter().map(|(_id, b)| b.get_one().unwrap())`, event [TLcs t]).
+   The pass depends on a contract of the lifecycle module, stated on the writer's side by the lifecycle check
+   (clauses published_key_single_value / table_key_single_value): every published key has exactly one value.
+   Under that hypothesis the loop body receives exactly the one value of every key - never an empty bag - and
+   the pass leaves the state alone, for every table and every state ... *)
+Theorem C15_tick_lifecycle_table_contract : forall (st : state) (t : lc_table),
+  published_key_single_value t = true ->
+  tick_lcs st t = Ok st /\
+  (forall entries, t = Some entries -> exists vs, lc_loop entries = Ok vs /\ map (fun v => [v]) vs = map snd entries).
+Proof.
+  intros st t H. split; [exact (tick_lcs_ok st t H)|].
+  intros entries ->. exact (lc_loop_ok entries H).
+Qed.
+
+(* ... and the dependency is real: with ANY table that has a key with an empty value bag (evmap `clear`
+   instead of `empty`) a pass over an open, running (not paused, not extracting) context panics in
+   `get_one().unwrap()` - whatever the other entries are *)
+Theorem C15_tick_empty_bag_refuted : forall (st : state) (fc : fctx) (entries : list lc_entry) (k : N),
+  st_fc st = Some fc -> fc_extracting fc = false -> fc_paused fc = false ->
+  In (k, []) entries ->
+  published_key_single_value (Some entries) = false /\
+  tick_lcs st (Some entries) = Panic site_tick_lc_get_one.
+Proof.
+  intros st fc entries k E X P Hin. split.
+  - cbn [published_key_single_value]. apply Bool.not_true_is_false. intros H.
+    rewrite forallb_forall in H. specialize (H _ Hin). discriminate H.
+  - unfold tick_lcs, tick_lcs_fc. rewrite E, X, P, (lc_loop_empty_bag entries k Hin). reflexivity.
+Qed.
+
+(* through the whole loop: `open` of a file whose trace publishes a lifecycle (key 2) and merges it away
+   afterwards, the writer leaving the key with an empty bag; the 4 messages arrive, the pass reads the
+   table: the connection thread is gone before the next command is read *)
+Definition C15_empty_bag_witness : list titem :=
+  [ it [] "open {..}" (oo (OpenOk CAll false []));
+    it [TMsgs 4; TLcs (Some [(1, [(1, 4)]); (2, [])])] "pause" o0;
+    it [] "close" o0 ].
+Theorem C15_loop_empty_bag_refuted :
+  forallb (fun i => not_one_pass_open (t_orc i)) C15_empty_bag_witness = true /\
+  run_loop (init_state 1) C15_empty_bag_witness = Panic site_tick_lc_get_one.
+Proof. split; vm_compute; reflexivity. Qed.
+
+(* outside the one-pass class (no successful open with collect:one_pass_streams; [tick_inv]: nothing drained,
+   filtered_msgs point into all_msgs) and with lifecycle tables that keep the contract of the lifecycle
+   module (published_key_single_value for every table a pass reads) the loop never panics, for every
+   history, every arrival schedule, every filter predicate, every such table: one reply per command, and the
+   state is again the function of the replies *)
 Theorem C15_loop_one_reply_no_crash : forall (st : state) (h : list titem),
   tick_inv st -> forallb (fun i => not_one_pass_open (t_orc i)) h = true ->
+  forallb (fun i => forallb tevent_contract (t_pre i)) h = true ->
   exists st' ws, run_loop st h = Ok (st', ws) /\ List.length ws = List.length h /\
                  Forall (fun w => exists r : reply, w = [r]) ws /\
                  abs st' = spec_run (abs st) (map proj_item h) ws.
 Proof.
-  intros st h I Hn. destruct (run_loop_ok h st I Hn) as [st' [ws [H [L [F [_ A]]]]]]. exists st', ws. auto.
+  intros st h I Hn HC. destruct (run_loop_ok h st I Hn HC) as [st' [ws [H [L [F [_ A]]]]]]. exists st', ws. auto.
 Qed.
 
 Theorem C15_loop_init_inv : forall first_id, tick_inv (init_state first_id).
@@ -345,8 +390,8 @@ Example C15_nonvacuous :
   let h := [ it [] "stop 1" o0;
              it [] "open {..}" ok_open;
              it [] "open {..}" ok_open;
-             it [TMsgs 10] "stream {}" (os (sk false 0 20 0 0 0 0));
-             it [] "query {}" (os (sk false 0 20 1 0 0 1));
+             it [TMsgs 10; TLcs (Some [(7, [(7, 6)]); (9, [(9, 4)])])] "stream {}" (os (sk false 0 20 0 0 0 0));
+             it [TLcs None] "query {}" (os (sk false 0 20 1 0 0 1));
              it [] "stream_change_window 1 2,+7" o0;
              it [TMsgs 15; TDone 2] "stop 2" o0;
              it [] "stop 1" o0;
@@ -368,6 +413,7 @@ Example C15_nonvacuous :
              it [] "close" o0;
              it [] "open {..}" ok_open ] in
   forallb (fun i => not_one_pass_open (t_orc i)) h = true /\
+  forallb (fun i => forallb tevent_contract (t_pre i)) h = true /\
   exists st', run_loop (init_state 1) h =
     Ok (st', [ [RErr ENoFileOpened]; [ROk (OkOpen 1)]; [RErr (EOpenAlready 1)];
                [ROk (OkStream true 1 0 0 0)]; [ROk (OkStream false 2 1 0 0)];
@@ -378,7 +424,7 @@ Example C15_nonvacuous :
                [ROk OkClose]; [ROk (OkOpen 0)]; [RErr (EOpenAlready 0)]; [RErr (EOpenAlready 2)]; [ROk OkClose];
                [ROk (OkOpen 1)] ])
     /\ abs st' = Some [] /\ st_next_id st' = 5.
-Proof. cbv zeta. split; [reflexivity|]. eexists. split; [vm_compute; reflexivity|]. split; reflexivity. Qed.
+Proof. cbv zeta. split; [reflexivity|]. split; [reflexivity|]. eexists. split; [vm_compute; reflexivity|]. split; reflexivity. Qed.
 
 Print Assumptions C15_one_reply_no_crash.
 Print Assumptions C15_unknown_notice.
@@ -404,6 +450,9 @@ Print Assumptions C15_frame_split.
 Print Assumptions C15_number_syntax.
 Print Assumptions C15_tick_one_pass_refuted.
 Print Assumptions C15_tick_one_pass_window_refuted.
+Print Assumptions C15_tick_lifecycle_table_contract.
+Print Assumptions C15_tick_empty_bag_refuted.
+Print Assumptions C15_loop_empty_bag_refuted.
 Print Assumptions C15_loop_one_reply_no_crash.
 Print Assumptions C15_loop_init_inv.
 Print Assumptions C15_loop_state_consistent.
